@@ -609,8 +609,10 @@ def microdvd_site(ctx, report, ev, folder):
     if len(vals) != 1:
         raise AnalysisError("MicroDVD _framestomicro: expected one path")
     label = "frame number -> microseconds (frame * 10^6 / fps)"
-    check_affine(report, "R-AFFINE", fn, label, vals[0].value, {"$fps^-1*$framenum": US_S},
-                 {"$fps", "$framenum"}, "1", want_floor=True)
+    # (the two parameters by position: frame number, frames per second)
+    p_frame, p_fps = ("$" + fn.params[-2], "$" + fn.params[-1]) if len(fn.params) >= 2 else ("$framenum", "$fps")
+    check_affine(report, "R-AFFINE", fn, label, vals[0].value, {"*".join(sorted([p_fps + "^-1", p_frame])): US_S},
+                 {p_fps, p_frame}, "1", want_floor=True)
     # call sites: which frame number and which fps reach the conversion
     calls = [c for c in walk_no_nested(rd.node) if isinstance(c, ast.Call) and call_name(c) == "self._framestomicro"]
     if len(calls) != 2:
@@ -702,7 +704,7 @@ def microdvd_site(ctx, report, ev, folder):
             fk = "intfloat"
         else:
             fk = "float" if fps_float else "exact"
-        rounds = _roundings(body_expr, {"framenum": "int", "fps": fk})
+        rounds = _roundings(body_expr, {p_frame[1:]: "int", p_fps[1:]: fk})
         ok = rounds <= 1
         report.check(ok, "R-EXACT", fn, label_k,
                      {"expression": short(body_expr), "float_roundings_before_truncation": rounds,
